@@ -2,6 +2,6 @@ SPECIFICATION MSpec
 CONSTANTS
   NSrc = 3
   Keys = {1, 2, 3, 4}
-  TieBySourceIndex = TRUE
+  TieBySourceIndex = FALSE
 INVARIANTS OutPrefixOk DoneComplete
 CHECK_DEADLOCK FALSE
